@@ -11,6 +11,7 @@ def parseOp : List String → Option Op
   | ["i", r, k, m] => some (.issue (natTok r) (natTok k) (m == "1"))
   | ["p", r] => some (.poll (natTok r))
   | ["c", r] => some (.cancel (natTok r))
+  | ["co", r] => some (.cancelOff (natTok r))
   | ["d", r, o] =>
     let out := match o with | "ok0" => some (DialOutcome.ok .asRequested) | "ok1" => some (.ok .alpnH2) | "okp" => some (.ok .notShared) | "fc" => some .failConnect
                             | "fh" => some .failHandshake | _ => none
